@@ -368,6 +368,7 @@ Proof.
       - rewrite (alookup_aremove N.eqb N.eqb_eq) in G'. destruct (x =? c); [discriminate|congruence].
       - destruct (alookup N.eqb c (st_sess st)) as [[y|j]|]; try congruence.
         destruct (alookup bytes_eqb j (st_stored st)) as [s0|] eqn:L; [|congruence].
+        destruct (option_eqb N.eqb (s_act s0) (Some c)); [|congruence].
         rewrite (alookup_aset bytes_eqb bytes_eqb_eq) in G'. destruct (bytes_eqb i j) eqn:E; [|congruence].
         apply bytes_eqb_eq in E; subst j. rewrite L in G; injection G as <-. injection G' as <-. destruct temp; reflexivity. }
     rewrite Q. no_events G.
@@ -415,6 +416,7 @@ Proof.
     + rewrite (alookup_aremove N.eqb N.eqb_eq) in G'. destruct (x =? c); congruence.
     + destruct (alookup N.eqb c (st_sess st)) as [[y|j]|]; try congruence.
       destruct (alookup bytes_eqb j (st_stored st)) as [s0|] eqn:L; [|congruence].
+      destruct (option_eqb N.eqb (s_act s0) (Some c)); [|congruence].
       rewrite (alookup_aset bytes_eqb bytes_eqb_eq) in G'. destruct (bytes_eqb i j) eqn:E; [|congruence].
       apply bytes_eqb_eq in E; subst j. congruence.
   - unfold close_backend. cbn [snd]. intros G'. destruct k; cbn [get_session st_temps st_stored] in *; congruence.
